@@ -70,7 +70,16 @@ def lean_build(timeout: int = 3000) -> tuple[bool, str]:
     if "build" in _build_state:
         return _build_state["build"]  # type: ignore[return-value]
     t0 = time.time()
-    p = subprocess.run(["lake", "build"], cwd=LEAN, capture_output=True, text=True, timeout=timeout)
+    # checks may run in parallel: serialise the builds (a no-op build takes ~0.3 s) so that two lake
+    # processes never write the same target at once
+    import fcntl
+    lock_path = LEAN / ".lake-verif.lock"
+    with open(lock_path, "w") as lock:
+        fcntl.flock(lock, fcntl.LOCK_EX)
+        try:
+            p = subprocess.run(["lake", "build"], cwd=LEAN, capture_output=True, text=True, timeout=timeout)
+        finally:
+            fcntl.flock(lock, fcntl.LOCK_UN)
     ok = p.returncode == 0
     out = (p.stdout + p.stderr)[-4000:]
     _build_state["build"] = (ok, out)
